@@ -8,7 +8,7 @@
    [committed r p c]: the record of p names a digest whose object is in the cache and reads c.
    The hash functions are ideal; what was committed fits the recorded digest (C02: cas_invariant). *)
 From Coq Require Import List Bool NArith.
-From XV Require Import Base.Amap Base.Bytes Repo.Model Repo.Proofs Repo.Inv Repo.Restore Repo.Stamps Repo.Main.
+From XV Require Import Base.Amap Base.Bytes Repo.Model Repo.Proofs Repo.Inv Repo.Restore Repo.Stamps Repo.Main Repo.Fix Repo.FixProofs.
 Import ListNotations.
 
 (* 1. (core) delete the workspace copy and recheck -- any method requested or stored, with or without
@@ -118,9 +118,102 @@ Example alias_witness_in_class :
   ws_read (fs (run_items (run_items r0 h_p2) [XTrack t0 [b_txt]])) b_txt = Some lf.
 Proof. vm_compute. split; reflexivity. Qed.
 
+(* ==== the code with the repairs of P44 / P42 and P41 behind switches (Repo/Fix.v) ====================================
+   [reachable_x fx r]: reached by ANY history of the commands with switches fx outside K_x fx (Props/C02.v); with both
+   switches off this is the model above (Props/C02.v model_with_switches_off), with P41 repaired the class relink is
+   empty (Props/C02.v relink_class_empty_when_fixed). *)
+Theorem recheck_restores_committed_x fx r p c o :
+  reachable_x fx r -> committed r p c ->
+  ws_read (fs (run_items_x fx r [UDelete p; XRecheck o [p]])) p = Some c /\
+  committed (run_items_x fx r [UDelete p; XRecheck o [p]]) p c.
+Proof. exact (restore_after_delete_x fx r p c o). Qed.
+
+Theorem force_replaces_modified_copy_x fx r p c junk m :
+  reachable_x fx r -> committed r p c ->
+  ws_read (fs (run_items_x fx r [UWrite p junk; XRecheck {| k_method := m; k_force := true |} [p]])) p = Some c /\
+  committed (run_items_x fx r [UWrite p junk; XRecheck {| k_method := m; k_force := true |} [p]]) p c.
+Proof. exact (restore_after_damage_x fx r p c junk m). Qed.
+
+(* ONE track command with any number of targets (equal content, --force, any visiting order): every target it
+   commits is recorded with the address of an object that reads the same bytes as the workspace entry afterwards;
+   then delete + recheck gives these bytes back.  (K_forced_duplicate: Props/C17.v; empty once P44 / P42 is repaired.) *)
+Theorem track_all_commit_content fx o ps r :
+  reachable_x fx r -> NoDup ps -> K_item_x fx r (XTrack o ps) = false -> K_forced_duplicate fx r o ps = false ->
+  snd (do_item_x fx r (XTrack o ps)) <> Panic /\
+  forall p a m, In (p, a, m) (calls_x fx o (walked_of ps) (r, []) ps) ->
+    In p ps /\ m = (match t_method o with Some m => m | None => cfg_method r end) /\
+    exists c, committed (fst (do_item_x fx r (XTrack o ps))) p c /\
+              materialised (fs (fst (do_item_x fx r (XTrack o ps)))) p a m c /\
+              obj_read (fs (fst (do_item_x fx r (XTrack o ps)))) a = Some c.
+Proof. exact (track_all_materialised fx o ps r). Qed.
+
+Theorem stays_restorable_x fx r h p c o :
+  reachable_x fx r -> committed r p c -> K_x fx r h = false -> forallb (harmless p) h = true ->
+  ws_read (fs (run_items_x fx (run_items_x fx r h) [UDelete p; XRecheck o [p]])) p = Some c.
+Proof. exact (FixProofs.stays_restorable_x fx r h p c o). Qed.
+
+(* P49: a carry-in that names a path missing from the workspace.  As the code was, the length assertion of carry_in()
+   panicked and nothing was committed (carry_in_missing_target_panics_as_is); repaired, the path is left alone, what is
+   committed for it stays committed (and restorable: recheck_restores_committed_x), the other targets are carried in *)
+Theorem carry_in_keeps_missing_target fx o r ps p c :
+  fixed_P49 fx = true -> reachable_x fx r -> K_item_x fx r (XCarryIn o ps) = false -> c_force o = false ->
+  committed r p c -> wget (fs r) p = None ->
+  committed (fst (do_item_x fx r (XCarryIn o ps))) p c.
+Proof. exact (FixProofs.carry_in_keeps_missing_target fx o r ps p c). Qed.
+
+Check recheck_restores_committed_x : forall fx r p c o, reachable_x fx r -> committed r p c ->
+  ws_read (fs (run_items_x fx r [UDelete p; XRecheck o [p]])) p = Some c /\
+  committed (run_items_x fx r [UDelete p; XRecheck o [p]]) p c.
+
+(* non-vacuity in the repaired model: three equal files tracked by one forced command as hard links, one of them
+   restored as a copy after deletion *)
+Definition c_txt : path := [99; 46; 116; 120; 116]%N.
+Definition t_hf : track_opts := {| t_method := Some Hardlink; t_tob := None; t_no_commit := false; t_force := true |}.
+Definition h_dups : list item := [UWrite a_txt lf; UWrite b_txt lf; UWrite c_txt lf; XTrack t_hf [b_txt; c_txt; a_txt]].
+Example duplicates_nonvacuous :
+  reachable_x all_fixed (run_items_x all_fixed r0 h_dups) /\
+  committed (run_items_x all_fixed r0 h_dups) a_txt lf /\ committed (run_items_x all_fixed r0 h_dups) b_txt lf /\
+  committed (run_items_x all_fixed r0 h_dups) c_txt lf /\
+  length (calls_x all_fixed t_hf false (run_items_x all_fixed r0 [UWrite a_txt lf; UWrite b_txt lf; UWrite c_txt lf], []) [b_txt; c_txt; a_txt]) = 3%nat /\
+  ws_read (fs (run_items_x all_fixed (run_items_x all_fixed r0 h_dups)
+                 [UDelete b_txt; XRecheck {| k_method := Some Copy; k_force := false |} [b_txt]])) b_txt = Some lf.
+Proof.
+  split; [apply reachable_x_run; vm_compute; reflexivity|].
+  split; [eexists _, _, _; vm_compute; repeat split; discriminate|].
+  split; [eexists _, _, _; vm_compute; repeat split; discriminate|].
+  split; [eexists _, _, _; vm_compute; repeat split; discriminate|].
+  vm_compute. split; reflexivity.
+Qed.
+
+Definition c_plain : carry_opts := {| c_tob := None; c_force := false |}.
+Definition other : bytes := [111; 116; 104; 101; 114]%N.
+Definition h_missing : list item := [UWrite a_txt lf; UWrite b_txt junk; XTrack t0 [a_txt; b_txt]; UDelete a_txt; UWrite b_txt other].
+Example carry_in_missing_target_panics_as_is :
+  snd (do_item_x as_is (run_items_x as_is r0 h_missing) (XCarryIn c_plain [a_txt; b_txt])) = Panic /\
+  fst (do_item_x as_is (run_items_x as_is r0 h_missing) (XCarryIn c_plain [a_txt; b_txt])) = run_items_x as_is r0 h_missing.
+Proof. vm_compute. split; reflexivity. Qed.
+Example carry_in_missing_target_repaired :
+  reachable_x all_fixed (run_items_x all_fixed r0 h_missing) /\
+  committed (run_items_x all_fixed r0 h_missing) a_txt lf /\ wget (fs (run_items_x all_fixed r0 h_missing)) a_txt = None /\
+  K_item_x all_fixed (run_items_x all_fixed r0 h_missing) (XCarryIn c_plain [a_txt; b_txt]) = false /\
+  snd (do_item_x all_fixed (run_items_x all_fixed r0 h_missing) (XCarryIn c_plain [a_txt; b_txt])) = Ok /\
+  committed (fst (do_item_x all_fixed (run_items_x all_fixed r0 h_missing) (XCarryIn c_plain [a_txt; b_txt]))) b_txt other /\
+  ws_read (fs (run_items_x all_fixed r0 (h_missing ++ [XCarryIn c_plain [a_txt; b_txt]; XRecheck {| k_method := None; k_force := false |} [a_txt]]))) a_txt = Some lf.
+Proof.
+  split; [apply reachable_x_run; vm_compute; reflexivity|].
+  split; [eexists _, _, _; vm_compute; repeat split; discriminate|].
+  split; [vm_compute; reflexivity|]. split; [vm_compute; reflexivity|]. split; [vm_compute; reflexivity|].
+  split; [eexists _, _, _; vm_compute; repeat split; discriminate|vm_compute; reflexivity].
+Qed.
+
 Print Assumptions recheck_restores_committed.
 Print Assumptions force_replaces_modified_copy.
 Print Assumptions force_keeps_recorded_version.
 Print Assumptions track_commits_content.
 Print Assumptions track_then_recheck_restores.
 Print Assumptions stays_restorable.
+Print Assumptions recheck_restores_committed_x.
+Print Assumptions force_replaces_modified_copy_x.
+Print Assumptions track_all_commit_content.
+Print Assumptions stays_restorable_x.
+Print Assumptions carry_in_keeps_missing_target.
